@@ -30,7 +30,7 @@ SYM = {'add': '+', 'sub': '-', 'mul': '*', 'div': 'div', 'idiv': 'idiv', 'mod': 
 UN = ['neg', 'pos', 'abs', 'floor', 'ceiling', 'round1', 'round', 'rhe']
 FN = {'abs': 'abs', 'floor': 'floor', 'ceiling': 'ceiling', 'round1': 'round', 'round': 'round',
       'rhe': 'round-half-to-even'}
-FINDING_IDS = ('F06c', 'F06t', 'F06x', 'F06p', 'F06v', 'F06s')
+FINDING_IDS = ('F06c', 'F06p', 'F06v')
 SPECIALS = ('NaN', 'INF', '-INF', '0', '-0')
 F32_MAX = 3.4028234663852886e38
 
@@ -83,6 +83,17 @@ def dec_str(n: int, s: int) -> str:
     return sign + (digits[:-s] + '.' + digits[-s:] if s else digits)
 
 
+def exact_decimal(x: Fr) -> str:
+    """exact decimal expansion of a dyadic rational (every double has a finite one)"""
+    d = x.denominator
+    k = d.bit_length() - 1
+    assert d == 1 << k
+    n = abs(x.numerator) * 5**k            # x = n / 10^k
+    digits = str(n).rjust(k + 1, '0')
+    body = digits[:-k] + '.' + digits[-k:] if k else digits
+    return ('-' if x < 0 else '') + body
+
+
 def lit(val, ver: str, style: int) -> str:
     """XPath source text of an operand.  style 0 = constructor, 1 = literal where one exists"""
     t = val[0]
@@ -97,8 +108,10 @@ def lit(val, ver: str, style: int) -> str:
             return s if '.' in s else s + '.0'
         assert t == 'D'
         x = val[1]
-        s = x if not isinstance(x, Fr) else repr(to_float(x))
-        return f"number('{s}')"
+        if not isinstance(x, Fr):
+            return {'NaN': '(0 div 0)', 'INF': '(1 div 0)', '-INF': '(-1 div 0)', '0': "number('0')", '-0': "number('-0')"}[x]
+        # XPath 1.0 number() accepts only `-? Digits ('.' Digits?)?`: the exact decimal expansion of the double
+        return f"number('{exact_decimal(x)}')"
     if t == 'i':
         return f'{val[1]}' if style else f"xs:integer('{val[1]}')"
     if t == 'd':
@@ -524,18 +537,13 @@ def judge(run: Run, cj, site: str, impl: str, a: dict, stats: bool, what: str = 
     st = run.stats
     tags = [f for f in flags if f in FINDING_IDS]
     if 'F06c' in tags and 'fhyp' in flags and spec_i is not None and impl != spec_i and impl != spec \
-            and 'F06t' not in tags and 'F06p' not in tags:
+            and 'F06p' not in tags:
         # F06c covers the *rounding* of xs:float only: the result must still be the F&O result computed
         # with binary64 rounding + clamp (theorem float_ops_eq_spec_up_to_rounding); otherwise it is a
         # dispatch/type defect and must be reported
         tags.remove('F06c')
         if stats:
             st.count('F06c-tag-refused')
-    if 'big' in flags:
-        # outside the domain where Python's float floor division is exact: only the result kind
-        if not (impl.startswith('i:') or impl == 'ERR:FOAR0002'):
-            run.disagree(Disagreement(cj, impl, model, spec, what='idiv-big-kind', site=site, tags=tags))
-        return tags
     spec_cmp = None if ('idef' in flags or 'ovf' in flags) else spec
     if spec_cmp is not None and impl != spec_cmp:
         run.disagree(Disagreement(cj, impl, model, spec, what=what, site=site, tags=tags))
@@ -619,8 +627,6 @@ def compare_contexts(run: Run, wrapped: list) -> None:
     st = run.stats
     jobs = []
     for case, a in wrapped:
-        if 'big' in a['flags']:
-            continue            # the inner model value is not reliable there (float floor division)
         if case['v'] == '10' and a['raw'] == 'd:0/1':
             continue            # Decimal('-0.00') keeps a sign the value model does not carry (see docs: decimal -0)
         kinds = CONTEXTS_10 if case['v'] == '10' else CONTEXTS_20
@@ -648,7 +654,7 @@ def compare_contexts(run: Run, wrapped: list) -> None:
         cj = dict(case_json(case), context=kind, expr=expr)
         site = f"context:{kind}@{case['v']}"
         st.count('context:' + kind)
-        inner_tagged = any(f in FINDING_IDS or f in ('idef', 'ovf', 'big') for f in a['flags'])
+        inner_tagged = any(f in FINDING_IDS or f in ('idef', 'ovf') for f in a['flags'])
         if a['model'].startswith('ERR'):
             exp = {'model': a['model'], 'spec': a['spec'], 'specI': None, 'flags': list(a['flags']), 'raw': a['raw']}
         elif kind == 'seq':
@@ -754,7 +760,7 @@ def compare_reuse(run: Run, groups: list) -> None:
     for g in groups:
         ans = answers[k:k + len(g['elems'])]
         k += len(g['elems'])
-        if any(a is None for a in ans) or any('big' in a['flags'] for a in ans):
+        if any(a is None for a in ans):
             continue
         ver = g['v']
         st.count('reuse:' + g['form'])
@@ -846,7 +852,7 @@ def grid_cases(vers=('20', '31'), small=False):
 
 def correspond(run: Run) -> None:
     rng = run.rng
-    n = run.scale(30000, 400000)
+    n = run.scale(24000, 400000)
     cases = list(CORPUS)
     corpus_file = Path(__file__).resolve().parent.parent / 'corpus' / 'C06' / 'seeds.jsonl'
     if corpus_file.exists():
@@ -868,7 +874,7 @@ def correspond(run: Run) -> None:
         'syntax; plus the seed corpus and (a sample of) the exhaustive small grid. distinct = distinct request lines')
     for i in range(0, len(cases), 5000):
         compare(run, cases[i:i + 5000])
-    groups = [gen_reuse(rng) for _ in range(run.scale(3000, 40000))] + list(REUSE_CORPUS)
+    groups = [gen_reuse(rng) for _ in range(run.scale(2500, 40000))] + list(REUSE_CORPUS)
     for i in range(0, len(groups), 2000):
         compare_reuse(run, groups[i:i + 2000])
     run.log(f'correspondence done: {len(cases)} cases, {len(groups)} call-site-reuse groups')
@@ -994,15 +1000,14 @@ def body(run: Run) -> int:
     run.trusted_base += [
         'IEEE-754 binary64 rounding of + - * / and of float(int) / float(Decimal) (parameter `R` of the theorems; the '
         'driver executes a Lean round-to-nearest-even and the check compares the real results with it exactly)',
-        'math.fmod is the exact truncating remainder; float // float is the exact floor for |quotient| < 2^51',
+        'math.fmod is the exact truncating remainder; fractions.Fraction arithmetic is exact',
         'decimal module with the default context (28 digits, ROUND_HALF_EVEN): modelled as scaled-integer arithmetic + ctx28',
         'EPV/Spec/FOArith.lean is our reading of F&O 3.1 sections 4.2 and 4.4 and of XPath 3.1 B.1/B.2',
         'float(repr(x)) == x for the operand literals; Fraction(float) exact',
     ]
     run.assumptions += [
-        'the model mirrors the tree with the fix: commits of branch fix-c06 applied',
+        'the model mirrors the tree with the fix: commits of branches fix-c06, fix-c06-2, fix-c06-3 applied',
         'decimal results with more than 28 significant digits are implementation-defined (flag idef): compared with the model only',
-        'xs:double idiv with |quotient| >= 2^51 (flag big): only the kind of result is checked',
         'XPath 1.0: operands are doubles built with number(); integer/decimal literals of the 1.0 parser are not covered',
         'xs:decimal negative zero and integers beyond 1e300 are not generated',
     ]
